@@ -236,3 +236,69 @@ Proof.
   apply (own_json_detected sched cutoff toml_parses utf8 (msgpack_slice_trial utf8) (msgpack_slice_trial_verdict utf8) b rest json_slice_trial ty Hb).
   rewrite json_slice_trial_verdict, A. reflexivity.
 Qed.
+
+(* ---------- every JSON stream that translates is detected as JSON ---------- *)
+
+Lemma skip_ws_idem inp : skip_ws (skip_ws inp) = skip_ws inp.
+Proof.
+  induction inp as [|b r IH]; [reflexivity|]. cbn [skip_ws]. destruct (is_ws b) eqn:E; [exact IH|].
+  cbn [skip_ws]. now rewrite E.
+Qed.
+
+Lemma parse_value_skip_ws f depth inp : parse_value f depth (skip_ws inp) = parse_value f depth inp.
+Proof. destruct f as [|f]; [reflexivity|]. cbn [parse_value]. now rewrite skip_ws_idem. Qed.
+
+Lemma skip_ws_head_ascii inp b r : skip_ws inp = b :: r -> (b < 128)%N -> exists c t, inp = c :: t /\ (c < 128)%N.
+Proof.
+  destruct inp as [|c t]; [discriminate|]. cbn [skip_ws]. destruct (is_ws c) eqn:E.
+  - intros _ _. exists c, t. split; [reflexivity|]. unfold is_ws in E. lia.
+  - intros H Hb. inversion H; subst. eauto.
+Qed.
+
+Lemma value_head_ascii f depth b r evs rest : is_ws b = false ->
+  parse_value (S f) depth (b :: r) = (evs, JOk rest) -> (b < 128)%N.
+Proof.
+  intros W H. cbn [parse_value skip_ws] in H. rewrite W in H.
+  destruct (b =? 110)%N eqn:E1; [lia|]. destruct (b =? 116)%N eqn:E2; [lia|]. destruct (b =? 102)%N eqn:E3; [lia|].
+  destruct (b =? 45)%N eqn:E4; [lia|]. destruct (is_digit b) eqn:E5; [unfold is_digit in E5; lia|].
+  destruct (b =? 34)%N eqn:E6; [lia|]. destruct (b =? 91)%N eqn:E7; [lia|]. destruct (b =? 123)%N eqn:E8; [lia|discriminate].
+Qed.
+
+Lemma skip_ws_head_not_ws inp b r : skip_ws inp = b :: r -> is_ws b = false.
+Proof.
+  induction inp as [|c t IH]; [discriminate|]. cbn [skip_ws]. destruct (is_ws c) eqn:E; [exact IH|].
+  intros H. inversion H; subst. exact E.
+Qed.
+
+(* a JSON stream of at least one document that the reader loop translates to the
+   end is accepted by the JSON trial, from a reader and from a slice alike *)
+Theorem translatable_json_accepted inp d docs : json_reader inp = (d :: docs, JDone) ->
+  json_trial_reader inp = true /\ json_trial_slice inp = true.
+Proof.
+  intros H.
+  assert (Hu : utf8_valid inp = true) by (apply reader_ok_utf8; rewrite H; reflexivity).
+  assert (Hr : json_trial_reader inp = true).
+  { unfold json_reader in H. cbn [json_reader_loop] in H.
+    destruct (skip_ws inp) as [|b r] eqn:Es; [discriminate|].
+    destruct (json_value (b :: r)) as [evs [rest|e]] eqn:Ev; [|discriminate].
+    apply (json_value_accepted_by_trial inp evs rest). apply (json_value_any_fuel (json_fuel (b :: r))).
+    rewrite <- parse_value_skip_ws, Es. exact Ev. }
+  split; [exact Hr|]. unfold json_trial_slice. rewrite Hu. exact Hr.
+Qed.
+
+Theorem translatable_json_detected (sched : nat -> nat) (cutoff : nat) (toml_parses utf8 : bytes -> bool) (ty : trial) inp d docs :
+  json_reader inp = (d :: docs, JDone) ->
+  snd (detect sched cutoff toml_parses (msgpack_slice_trial utf8) json_slice_trial ty (start (HSlice inp))) = Ok (Some Json).
+Proof.
+  intros H. destruct (translatable_json_accepted inp d docs H) as (_ & Hs).
+  assert (Hh : exists c t, inp = c :: t /\ (c < 128)%N).
+  { unfold json_reader in H. cbn [json_reader_loop] in H.
+    destruct (skip_ws inp) as [|b r] eqn:Es; [discriminate|].
+    destruct (json_value (b :: r)) as [evs [rest|e]] eqn:Ev; [|discriminate].
+    apply (skip_ws_head_ascii inp b r Es). unfold json_value, json_fuel in Ev.
+    exact (value_head_ascii _ _ _ _ _ _ (skip_ws_head_not_ws _ _ _ Es) Ev). }
+  destruct Hh as (c & t & -> & Hc).
+  rewrite detect_slice_order. unfold cascade.
+  rewrite msgpack_slice_trial_verdict, msgpack_needs_collection_marker by (apply ascii_not_marker; exact Hc).
+  rewrite json_slice_trial_verdict, Hs. reflexivity.
+Qed.
